@@ -392,6 +392,19 @@ func (x *Exec) constObj(o *types.Const) (Val, error) {
 
 // lookup resolves a bare identifier.
 func (x *Exec) lookup(name string, env *SpecEnv) (Val, error) {
+	if strings.HasPrefix(name, "caller_") {
+		// in a callpre rule: the caller's variable, even when a callee parameter has the same name
+		if _, shadowed := env.vars["$local:"+name[7:]]; shadowed {
+			n := *env
+			n.vars = map[string]Val{}
+			for k, v := range env.vars {
+				if k != "$local:"+name[7:] {
+					n.vars[k] = v
+				}
+			}
+			return x.lookup(name[7:], &n)
+		}
+	}
 	if v, ok := env.vars["$local:"+name]; ok {
 		return v, nil
 	}
